@@ -34,6 +34,11 @@ fn main() {
         "C03" => main_for::<props::c03::C03>(rest),
         "C04" => main_for::<props::c04::C04>(rest),
         "C05" => main_for::<props::c05::C05>(rest),
+        "C06" => main_for::<props::c06::C06>(rest),
+        "C18" => {
+            props::c18::self_check();
+            main_for::<props::c18::C18>(rest)
+        }
         "C19" => main_for::<props::c19::C19>(rest),
         _ => {
             eprintln!("unknown property {id}");
